@@ -46,6 +46,14 @@ pub struct StepLog {
     pub writes: Vec<String>,
     /// scheduled (holder, key) pairs of each `KeysToFetchForReplication` event, in event order
     pub sched: Vec<Vec<(PeerId, RecordKey)>>,
+    /// per batch of `sched`: it was emitted while a `FetchCompleted` command was handled that followed a
+    /// `PutLocalRecord` in the same pump (the second `next_keys_to_fetch` run a stored reply causes)
+    pub sched_after_put: Vec<bool>,
+    /// per batch of `sched`: the record type of each pair, read from the in-flight queue right after the command that
+    /// emitted the batch (a later command of the same pump may already have removed the entry again)
+    pub sched_types: Vec<Vec<Option<RecordType>>>,
+    /// `(key, type)` of each `FetchCompleted` command handled
+    pub completed: Vec<(RecordKey, RecordType)>,
     /// holders reported by `FailedToFetchHolders`
     pub failed: Vec<PeerId>,
     /// (target, keys) of each `Cmd::Replicate` sent, in send order
@@ -135,6 +143,7 @@ impl Sim {
         let n = &mut nodes[i];
         rt.block_on(async {
             let mut idle = 0;
+            let mut saw_put = false;
             while idle < 6 {
                 for _ in 0..4 {
                     tokio::task::yield_now().await;
@@ -142,7 +151,13 @@ impl Sim {
                 let mut moved = false;
                 while let Some(cmd) = dhook::try_recv_local_cmd(&mut n.driver) {
                     moved = true;
+                    let mut is_done = false;
+                    if let LocalSwarmCmd::FetchCompleted((k, t)) = &cmd {
+                        is_done = true;
+                        log.completed.push((k.clone(), t.clone()));
+                    }
                     if let LocalSwarmCmd::PutLocalRecord { record } = &cmd {
+                        saw_put = true;
                         let k = key_ids.get(&record.key.to_vec()).copied();
                         match k {
                             Some(k) => {
@@ -154,6 +169,25 @@ impl Sim {
                     }
                     if let Err(e) = hook::handle_local_cmd(&mut n.driver, cmd) {
                         log.other.push(format!("localerr:{}", short_err(&e)));
+                    }
+                    // the events this command emitted (so that a batch can be attributed to its handler)
+                    for _ in 0..4 {
+                        tokio::task::yield_now().await;
+                    }
+                    while let Ok(ev) = n.events.try_recv() {
+                        match ev {
+                            NetworkEvent::KeysToFetchForReplication(keys) => {
+                                log.sched.push(keys.clone());
+                                log.sched_after_put.push(is_done && saw_put);
+                                let (_tbf, ogf) = hook::replication_fetcher_queues(&n.driver);
+                                log.sched_types.push(
+                                    keys.iter().map(|(h, k)| ogf.iter().find(|(ok, _, oh, _)| ok == k && oh == h).map(|(_, t, _, _)| t.clone())).collect(),
+                                );
+                                n.node.handle_network_event(NetworkEvent::KeysToFetchForReplication(keys));
+                            }
+                            NetworkEvent::FailedToFetchHolders(set) => log.failed.extend(set),
+                            other => log.other.push(format!("?ev:{}", first_word(&format!("{other:?}")))),
+                        }
                     }
                 }
                 while let Some(cmd) = dhook::try_recv_network_cmd(&mut n.driver) {
@@ -195,6 +229,8 @@ impl Sim {
                     match ev {
                         NetworkEvent::KeysToFetchForReplication(keys) => {
                             log.sched.push(keys.clone());
+                            log.sched_after_put.push(false);
+                            log.sched_types.push(vec![None; keys.len()]);
                             // the real `Node::handle_network_event` (arm `KeysToFetchForReplication`)
                             n.node.handle_network_event(NetworkEvent::KeysToFetchForReplication(keys));
                         }
